@@ -208,6 +208,8 @@ def run(ctx, progs):
         b = prov("checked_align_up")
         ok = False
         detail = ""
+        if not b:
+            ctx.ob("C19.anchor", "?", False, "", "anchor body not found (renamed or removed): the rule cannot be evaluated — fail closed")
         if b:
             r = single_ret(b)
             detail = f"return term = {tstr(r) if r else '?'}"
